@@ -227,6 +227,7 @@ func be32(v *big.Int) (b [32]byte) {
 }
 
 func c10(r *engine.Run) {
+	r.RaceWorkload = "signatures" // supplement: free-running race-detector pass over the same API (can only add findings)
 	N, H := txnsecp.N, txnsecp.HalfN
 	outcomes := engine.NewCounter()
 	acceptedS := engine.NewCounter()
